@@ -66,7 +66,7 @@ fragment: a type is declared, no discriminator, not deprecated); `nm` is its nam
 def encPField (f : Field κ α) (nm : OVal α) : OVal α :=
   .obj "ParserField" [
     ("field", .obj "Field" [("deprecated", .bool false)]), ("deprecated_to", .none),
-    ("type", .cls 0), ("discriminator_map", .none), ("name", nm), ("EXCLUDED", .obj "Excluded" []),
+    ("type", .cls 0), ("discriminator_types", .seq .tuple []), ("discriminator_map", .none), ("discriminator_keys", .seq .list []), ("name", nm), ("EXCLUDED", .obj "Excluded" []),
     ("on_error", match f.onError with | none => .none | some p => encPolicy p),
     ("required", .bool f.required), ("default", encOptVal f.default), ("default_factory", .none),
     ("defer_default", .bool false), ("no_input", .bool false), ("mode", .none), ("final", .bool false)]
